@@ -10,6 +10,11 @@ Sine / linear pacers: the decision structure of the code for ANY float operation
 import Vegeta.Model.Pacer
 import Mathlib.Tactic.Linarith
 import Mathlib.Tactic.Ring
+import Mathlib.Tactic.Positivity
+import Mathlib.Tactic.FieldSimp
+import Mathlib.Algebra.Order.Field.Basic
+import Mathlib.Algebra.Order.Floor.Ring
+import Mathlib.Data.Rat.Floor
 namespace Vegeta.Props.C01
 open Vegeta.Go Vegeta.Model.Pacer
 
@@ -774,6 +779,86 @@ theorem sine_upper_partial (p : SineP F) (S : Int → Int)
       exact hnonpos t n d hbr.2
     · exact absurd (by rw [he2, hb]) hnf
 
+/-- The two ways `LinearPacer.Pace` answers with a wait (positive `StartAt`). -/
+theorem aux_linearPace_wait (p : LinearP F) (t : Int) (n : Nat) (d : Int)
+    (hf : 0 < p.freq) (hp : 0 < p.per) (h : linearPace o p t n = .wait d) :
+    ((n = 0 ∨ (n : Int) < o.toUInt64 (linearHits o p t)) ∧ d = 0) ∨
+    (¬ (n = 0 ∨ (n : Int) < o.toUInt64 (linearHits o p t)) ∧
+      d = o.toInt64 (o.mul (o.round (o.div o.e9 (linearRate o p t)))
+            (o.sub (o.ofUInt64 (wrapU64 ((n : Int) + 1))) (linearHits o p t)))) := by
+  unfold linearPace at h
+  rw [if_neg (by omega), if_neg (by omega)] at h
+  simp only [] at h
+  split at h
+  · rename_i hb; left; exact ⟨hb, by injection h with h; omega⟩
+  · rename_i hb
+    right
+    refine ⟨hb, ?_⟩
+    split at h
+    · exact absurd h PaceOut.noConfusion
+    · exact absurd h PaceOut.noConfusion
+    · injection h with h; exact h.symm
+
+/-- The bisection leaves through exactly one of three exits. -/
+theorem aux_sineBisect_exits (p : SineP F) (t : Int) (n : Nat) :
+    ∀ (k : Nat) (lo up : Int), (sineBisect o p t n k lo up).2 = .bisected ∨
+      (sineBisect o p t n k lo up).2 = .bracket ∨ (sineBisect o p t n k lo up).2 = .unconverged := by
+  intro k
+  induction k with
+  | zero => intro lo up; simp [sineBisect]
+  | succ k ih =>
+    intro lo up
+    unfold sineBisect
+    split
+    · simp only []
+      split
+      · simp
+      · split
+        · exact ih _ _
+        · exact ih _ _
+    · simp
+
+/-- The bisection answers with a point of its bracket. -/
+theorem aux_sineBisect_range (p : SineP F) (t : Int) (n : Nat) :
+    ∀ (k : Nat) (lo up : Int), 0 ≤ lo → lo ≤ up → up ≤ maxInt64 →
+      lo ≤ (sineBisect o p t n k lo up).1 ∧ (sineBisect o p t n k lo up).1 ≤ up := by
+  intro k
+  induction k with
+  | zero => intro lo up _ h _; simp [sineBisect]; exact h
+  | succ k ih =>
+    intro lo up h0 h1 h2
+    have hw : wrapS64 (up - lo) = up - lo :=
+      wrapS64_id (by unfold inS64 minInt64; unfold maxInt64 at *; omega)
+    have hhalf : (up - lo).tdiv 2 = (up - lo) / 2 := Int.tdiv_eq_ediv_of_nonneg (by omega)
+    have hmid : wrapS64 (lo + (up - lo) / 2) = lo + (up - lo) / 2 :=
+      wrapS64_id (by unfold inS64 minInt64; unfold maxInt64 at *; omega)
+    unfold sineBisect
+    rw [hw, hhalf, hmid]
+    split
+    · simp only []
+      split
+      · exact ⟨by omega, by omega⟩
+      · split
+        · have := ih (lo + (up - lo) / 2) up (by omega) (by omega) h2
+          exact ⟨by omega, this.2⟩
+        · have := ih lo (lo + (up - lo) / 2) h0 (by omega) (by omega)
+          exact ⟨this.1, by omega⟩
+    · exact ⟨h1, le_refl _⟩
+
+/-- Every guess of the fixed-point loop is a `time.Duration` when the conversion yields one. -/
+theorem aux_sineIter_range (p : SineP F) (t : Int) (n : Nat) (hconv : ∀ x, inS64 (o.toInt64 x)) :
+    ∀ (k : Nat) (g : Int), inS64 g → inS64 (sineIter o p t n k g).1 := by
+  intro k
+  induction k with
+  | zero => intro g hg; simpa [sineIter] using hg
+  | succ k ih =>
+    intro g hg
+    unfold sineIter
+    simp only []
+    split
+    · exact hg
+    · exact ih _ (hconv _)
+
 end floats
 
 /-! Non-vacuity of the float theorems: a concrete instance (SoftF64 arithmetic, `sin = cos = 0`),
@@ -827,5 +912,619 @@ example : Bracket nvOps nvSineFast 0 0 0 (nvOps.toInt64 (sineHi nvOps nvSineFast
   unfold Bracket; decide +kernel
 example : linearPace nvOps { freq := 10, per := 1000000000, slope := F64.ofNat 1 } 1000000000 11
     = .wait 136363636 := by decide +kernel
+
+/-! ## Exact arithmetic: the same code over a linearly ordered field
+
+`exactOps` instantiates the float operations of the model with EXACT arithmetic over any linearly
+ordered field `K` with a floor function (ℚ, ℝ): `+ − × ÷` are the field operations, `math.Round` is
+the identity (no rounding of the interval), `math.Pow(x, 2) = x·x`, `math.Ceil` is the ceiling, the
+float→integer conversions truncate toward zero with Go's out-of-range result (`MinInt64`), and
+`sin`, `cos`, `π` are parameters.  Theorems about `linearPace (exactOps …)` and
+`sinePaceX (exactOps …)` are theorems about the very same decision code, with the rounding errors of
+binary64 idealised away (what remains: the truncation of waits to whole nanoseconds). -/
+
+section exact
+set_option linter.unusedSectionVars false
+variable {K : Type} [Field K] [LinearOrder K] [IsStrictOrderedRing K] [FloorRing K]
+
+/-- truncation toward zero -/
+def truncK (x : K) : Int := if 0 ≤ x then ⌊x⌋ else ⌈x⌉
+
+/-- Go/amd64 `int64(f)`: truncation, `MinInt64` when out of range. -/
+def toI64K (x : K) : Int :=
+  if minInt64 ≤ truncK x ∧ truncK x ≤ maxInt64 then truncK x else minInt64
+
+/-- Go/amd64 `uint64(f)`: below 2^63 the signed conversion reinterpreted, otherwise
+`int64(f − 2^63) | 1<<63`. -/
+def toU64K (x : K) : Int :=
+  if x < ((two63 : Nat) : K) then wrapU64 (toI64K x)
+  else if toI64K (x - ((two63 : Nat) : K)) < 0 then (two63 : Int)
+  else toI64K (x - ((two63 : Nat) : K)) + (two63 : Int)
+
+def exactOps (sin cos : K → K) (pi : K) : FloatOps K where
+  ofInt64 := fun i => (i : K)
+  ofUInt64 := fun i => (i : K)
+  add := (· + ·)
+  sub := (· - ·)
+  mul := (· * ·)
+  div := (· / ·)
+  lt := fun a b => decide (a < b)
+  le := fun a b => decide (a ≤ b)
+  abs := fun x => |x|
+  round := id
+  ceil := fun x => ((⌈x⌉ : Int) : K)
+  sin := sin
+  cos := cos
+  sq := fun x => x * x
+  toInt64 := toI64K
+  toUInt64 := toU64K
+  zero := 0
+  one := 1
+  two := 2
+  pi := pi
+  twoPi := 2 * pi
+  e9 := 1000000000
+  em3 := 1 / 1000
+
+variable (sin cos : K → K) (pi : K)
+
+/-- `Duration.Seconds()` is exact: `t / 1e9`. -/
+theorem aux_seconds_exact (t : Int) :
+    seconds (exactOps sin cos pi) t = (t : K) / 1000000000 := by
+  unfold seconds exactOps
+  simp only []
+  have h := Int.mul_tdiv_add_tmod t 1000000000
+  have hK : (t : K) = 1000000000 * ((t.tdiv 1000000000 : Int) : K) + ((t.tmod 1000000000 : Int) : K) := by
+    have := congrArg (fun z : Int => (z : K)) h
+    simp only [Int.cast_add, Int.cast_mul, Int.cast_ofNat] at this
+    exact this.symm
+  rw [hK]
+  field_simp
+
+/-! ### Conversions and the K-valued closed-loop lemma -/
+
+/-- K-valued form of `closedLoop_upper_of_contract` with additive slack `c` and a time horizon
+`T ≤ MaxInt64`: the contract may use that virtual time is non-negative and has not passed `T`; the
+bound is obtained for every state up to `T` (every state has `t ≤ MaxInt64`). -/
+theorem closedLoop_upper_of_contract_field (p : Int → Nat → PaceOut) (S : Int → K) (c : K) (T : Int)
+    (hT : T ≤ maxInt64)
+    (hmono : ∀ a b : Int, 0 ≤ a → a ≤ b → S a ≤ S b)
+    (hcontract : ∀ (t : Int) (n : Nat) (d : Int), 0 ≤ t → t + max d 0 ≤ T →
+      (n : K) ≤ S t + c → p t n = .wait d → (n : K) + 1 ≤ S (t + max d 0) + c)
+    (stalls : List Nat) (h0 : 0 ≤ S 0 + c) :
+    ∀ x ∈ closedLoop p stalls 0 0, x.1 ≤ maxInt64 ∧ (x.1 ≤ T → (x.2 : K) ≤ S x.1 + c) := by
+  have key := closedLoop_invariant p
+    (fun t n => 0 ≤ t ∧ t ≤ maxInt64 ∧ (t ≤ T → (n : K) ≤ S t + c)) ?_ stalls 0 0
+    ⟨le_refl _, by unfold maxInt64; omega, fun _ => by simpa using h0⟩
+  · intro x hx; exact (key x hx).2
+  · intro t n d s ⟨ht, _, hinv⟩ hw hle
+    have hs : (0 : Int) ≤ (s : Int) := Int.natCast_nonneg _
+    have hm : (0 : Int) ≤ max d 0 := le_max_right _ _
+    refine ⟨by omega, hle, ?_⟩
+    intro hTle
+    have h1 := hcontract t n d ht (by omega) (hinv (by omega)) hw
+    have h2 := hmono (t + max d 0) (t + max d 0 + (s : Int)) (by omega) (by omega)
+    push_cast
+    linarith
+
+theorem aux_toI64K_floor (x : K) (h0 : 0 ≤ x) (h1 : x < ((maxInt64 + 1 : Int) : K)) :
+    toI64K x = ⌊x⌋ := by
+  have hfl0 : (0 : Int) ≤ ⌊x⌋ := Int.floor_nonneg.2 h0
+  have hfl1 : ⌊x⌋ < maxInt64 + 1 := Int.floor_lt.2 h1
+  unfold toI64K truncK
+  rw [if_pos h0, if_pos ⟨by unfold minInt64; omega, by omega⟩]
+
+/-- A non-negative result of `int64(y)` for `y ≥ 0` is the floor of `y`. -/
+theorem aux_toI64K_nonneg (y : K) (h0 : 0 ≤ y) (h : ¬ toI64K y < 0) : toI64K y = ⌊y⌋ := by
+  unfold toI64K truncK at h ⊢
+  rw [if_pos h0] at h ⊢
+  split
+  · rfl
+  · rename_i hr; rw [if_neg hr] at h; unfold minInt64 at h; omega
+
+theorem aux_toU64K_floor (x : K) (h0 : 0 ≤ x) (h1 : x < ((two63 : Nat) : K)) :
+    toU64K x = ⌊x⌋ := by
+  have h1' : x < ((maxInt64 + 1 : Int) : K) := by
+    have : ((maxInt64 + 1 : Int) : K) = ((two63 : Nat) : K) := by unfold maxInt64 two63; norm_num
+    rw [this]; exact h1
+  have hfl0 : (0 : Int) ≤ ⌊x⌋ := Int.floor_nonneg.2 h0
+  have hfl1 : ⌊x⌋ < maxInt64 + 1 := Int.floor_lt.2 h1'
+  unfold toU64K
+  rw [if_pos h1, aux_toI64K_floor x h0 h1']
+  exact wrapU64_id (by unfold inU64 two64; unfold maxInt64 at hfl1; omega)
+
+/-- `uint64(x)` never exceeds a non-negative `x`. -/
+theorem aux_toU64K_le (x : K) (h0 : 0 ≤ x) : ((toU64K x : Int) : K) ≤ x := by
+  by_cases hlt : x < ((two63 : Nat) : K)
+  · rw [aux_toU64K_floor x h0 hlt]; exact Int.floor_le x
+  · have hy : 0 ≤ x - ((two63 : Nat) : K) := by linarith [not_lt.1 hlt]
+    unfold toU64K
+    rw [if_neg hlt]
+    split
+    · have : ((two63 : Int) : K) = ((two63 : Nat) : K) := by norm_cast
+      rw [this]; exact not_lt.1 hlt
+    · rename_i hneg
+      rw [aux_toI64K_nonneg _ hy hneg]
+      have := Int.floor_le (x - ((two63 : Nat) : K))
+      push_cast
+      linarith
+
+/-! ### "The declared schedule is the integral of the instantaneous rate" (constant, linear) -/
+
+/-- Constant pacer: the schedule of the statement, `S(t) = Freq·t/Per` (t in ns), is exactly
+`Rate() · t` with `Rate()` in hits per second and `t` in seconds — the integral of the constant rate. -/
+theorem const_schedule_is_rate_integral (freq per t : Int) (hp : per ≠ 0) :
+    constRateOn (exactOps sin cos pi) freq per * seconds (exactOps sin cos pi) t
+      = (freq : K) * (t : K) / (per : K) := by
+  rw [aux_seconds_exact]
+  unfold constRateOn hitsPerNs exactOps
+  simp only []
+  have : (per : K) ≠ 0 := by exact_mod_cast hp
+  field_simp
+
+/-- … so `const_upper` reads `n_k ≤ Rate()·t_k` in these units. -/
+theorem const_upper_rate_form (freq per : Int) (hf : 0 < freq) (hp : 0 < per)
+    (hf' : freq ≤ maxInt64) (hp' : per ≤ maxInt64) (stalls : List Nat) :
+    ∀ x ∈ closedLoop (constPace freq per) stalls 0 0,
+      (x.2 : K) ≤ constRateOn (exactOps sin cos pi) freq per * seconds (exactOps sin cos pi) x.1 := by
+  intro x hx
+  have h := const_upper freq per hf hp hf' hp' stalls x hx
+  rw [const_schedule_is_rate_integral sin cos pi freq per x.1 (by omega)]
+  have hpK : (0 : K) < (per : K) := by exact_mod_cast hp
+  rw [le_div_iff₀ hpK]
+  exact_mod_cast h
+
+/-- `LinearPacer.Rate(t) = a·x + b` and `hits(t) = a·x²/2 + b·x` with `x = t/1e9` s and
+`b = Freq/Per·1e9`, as the code computes them over exact arithmetic. -/
+theorem aux_linear_closed_forms (p : LinearP K) (t : Int) :
+    linearRate (exactOps sin cos pi) p t
+      = p.slope * ((t : K) / 1000000000) + (p.freq : K) / (p.per : K) * 1000000000 ∧
+    (0 ≤ t → linearHits (exactOps sin cos pi) p t
+      = p.slope * ((t : K) / 1000000000) ^ 2 / 2
+        + (p.freq : K) / (p.per : K) * 1000000000 * ((t : K) / 1000000000)) := by
+  constructor
+  · unfold linearRate linearB hitsPerNs
+    rw [aux_seconds_exact]
+    simp only [exactOps]
+  · intro ht
+    unfold linearHits linearB hitsPerNs
+    rw [if_neg (by omega), aux_seconds_exact]
+    simp only [exactOps]
+    ring
+
+/-- Linear pacer: the schedule the code computes is the integral of the rate the code computes —
+`H(t₂) − H(t₁) = (x₂ − x₁)·(rate(t₁) + rate(t₂))/2` (trapezoid rule, exact for a linear rate) and
+`H(0) = 0`. -/
+theorem linear_schedule_is_rate_integral (p : LinearP K) (t1 t2 : Int) (h1 : 0 ≤ t1) (h2 : 0 ≤ t2) :
+    linearHits (exactOps sin cos pi) p 0 = 0 ∧
+    linearHits (exactOps sin cos pi) p t2 - linearHits (exactOps sin cos pi) p t1
+      = (seconds (exactOps sin cos pi) t2 - seconds (exactOps sin cos pi) t1)
+        * (linearRate (exactOps sin cos pi) p t1 + linearRate (exactOps sin cos pi) p t2) / 2 := by
+  constructor
+  · rw [(aux_linear_closed_forms sin cos pi p 0).2 (by omega)]; simp
+  · rw [(aux_linear_closed_forms sin cos pi p t1).2 h1, (aux_linear_closed_forms sin cos pi p t2).2 h2,
+      (aux_linear_closed_forms sin cos pi p t1).1, (aux_linear_closed_forms sin cos pi p t2).1,
+      aux_seconds_exact, aux_seconds_exact]
+    ring
+
+/-! ### Linear pacer with a non-negative slope: the first-order wait overshoots -/
+
+/-- Along EVERY closed loop of the linear pacer over exact arithmetic, for every non-negative slope
+and positive start rate, every stall history: the count never exceeds the schedule `H` the pacer
+declares by more than one hit, `n_k ≤ H(t_k) + 1`.  The first-order wait `(n+1−H(t))/rate(t)`
+overshoots because the rate does not fall; truncating it to whole nanoseconds loses less than
+`rate·1ns ≤ 1` hit.  Hypotheses (both are where the REAL code is known to fail otherwise):
+`hfast` — the rate stays at or below one hit per nanosecond within representable time (known
+finding `linear_subnanosecond_interval`) up to the horizon `T` for which the bound is claimed;
+`hslow` — the start rate is at least two hits per `MaxInt64` ns, so that `interval·delta` fits
+`int64`. -/
+theorem linear_upper_nonneg_slope (p : LinearP K) (hf : 0 < p.freq) (hp : 0 < p.per)
+    (ha : 0 ≤ p.slope) (T : Int) (hT : T ≤ maxInt64)
+    (hfast : linearRate (exactOps sin cos pi) p T ≤ 1000000000)
+    (hslow : 2 * 1000000000 ≤ linearRate (exactOps sin cos pi) p 0 * ((maxInt64 : Int) : K))
+    (stalls : List Nat) :
+    ∀ x ∈ closedLoop (linearPace (exactOps sin cos pi) p) stalls 0 0, x.1 ≤ T →
+      (x.2 : K) ≤ linearHits (exactOps sin cos pi) p x.1 + 1 := by
+  have hfK : (0 : K) < (p.freq : K) := by exact_mod_cast hf
+  have hpK : (0 : K) < (p.per : K) := by exact_mod_cast hp
+  obtain ⟨a, hadef⟩ : ∃ a, a = p.slope := ⟨_, rfl⟩
+  obtain ⟨b, hbdef⟩ : ∃ b, b = (p.freq : K) / (p.per : K) * 1000000000 := ⟨_, rfl⟩
+  obtain ⟨M, hMdef⟩ : ∃ M, M = ((maxInt64 : Int) : K) := ⟨_, rfl⟩
+  have hb : 0 < b := by rw [hbdef]; positivity
+  have ha' : 0 ≤ a := by rw [hadef]; exact ha
+  have hM63 : M + 1 = ((two63 : Nat) : K) := by rw [hMdef]; unfold maxInt64 two63; norm_num
+  have hR : ∀ t : Int, linearRate (exactOps sin cos pi) p t = a * ((t : K) / 1000000000) + b := by
+    intro t; rw [(aux_linear_closed_forms sin cos pi p t).1, hadef, hbdef]
+  have hH : ∀ t : Int, 0 ≤ t → linearHits (exactOps sin cos pi) p t
+      = a * ((t : K) / 1000000000) ^ 2 / 2 + b * ((t : K) / 1000000000) := by
+    intro t ht; rw [(aux_linear_closed_forms sin cos pi p t).2 ht, hadef, hbdef]
+  rw [hR] at hfast
+  rw [hR, ← hMdef] at hslow
+  have hslow' : 2 * 1000000000 ≤ b * M := by simpa using hslow
+  -- facts at a time 0 ≤ t ≤ T
+  have hfacts : ∀ t : Int, 0 ≤ t → t ≤ T →
+      0 ≤ (t : K) / 1000000000 ∧ a * ((t : K) / 1000000000) + b ≤ 1000000000 ∧
+      0 ≤ a * ((t : K) / 1000000000) ^ 2 / 2 + b * ((t : K) / 1000000000) ∧
+      a * ((t : K) / 1000000000) ^ 2 / 2 + b * ((t : K) / 1000000000) ≤ (t : K) := by
+    intro t ht0 ht1
+    have hx0 : (0 : K) ≤ (t : K) / 1000000000 := by
+      have : (0 : K) ≤ (t : K) := by exact_mod_cast ht0
+      positivity
+    have htM : (t : K) ≤ (T : K) := by exact_mod_cast ht1
+    have hxM : (t : K) / 1000000000 ≤ (T : K) / 1000000000 := by
+      apply div_le_div_of_nonneg_right htM; norm_num
+    have hr : a * ((t : K) / 1000000000) + b ≤ 1000000000 := by
+      have := mul_le_mul_of_nonneg_left hxM ha'
+      linarith
+    refine ⟨hx0, hr, by positivity, ?_⟩
+    have h1 : a * ((t : K) / 1000000000) ^ 2 / 2 + b * ((t : K) / 1000000000)
+        ≤ ((t : K) / 1000000000) * (a * ((t : K) / 1000000000) + b) := by
+      have : 0 ≤ a * ((t : K) / 1000000000) ^ 2 := by positivity
+      nlinarith
+    have h2 : ((t : K) / 1000000000) * (a * ((t : K) / 1000000000) + b)
+        ≤ ((t : K) / 1000000000) * 1000000000 := mul_le_mul_of_nonneg_left hr hx0
+    have h3 : ((t : K) / 1000000000) * 1000000000 = (t : K) := by field_simp
+    linarith
+  intro x hx hxT
+  refine (closedLoop_upper_of_contract_field (linearPace (exactOps sin cos pi) p)
+    (fun t => linearHits (exactOps sin cos pi) p t) 1 T hT ?_ ?_ stalls ?_ x hx).2 hxT
+  · -- the schedule is monotone on t ≥ 0
+    intro t1 t2 h1 h2
+    rw [hH t1 h1, hH t2 (by omega)]
+    have hx1 : (0 : K) ≤ (t1 : K) / 1000000000 := by
+      have : (0 : K) ≤ (t1 : K) := by exact_mod_cast h1
+      positivity
+    have hx12 : (t1 : K) / 1000000000 ≤ (t2 : K) / 1000000000 := by
+      apply div_le_div_of_nonneg_right _ (by norm_num)
+      exact_mod_cast h2
+    nlinarith [mul_nonneg ha' hx1, mul_nonneg ha' (sub_nonneg.2 hx12),
+      mul_nonneg (mul_nonneg ha' (sub_nonneg.2 hx12)) (sub_nonneg.2 hx12),
+      mul_nonneg (mul_nonneg ha' (sub_nonneg.2 hx12)) hx1]
+  · -- the pointwise contract
+    intro t n d ht hle hinv hw
+    have hm : (0 : Int) ≤ max d 0 := le_max_right _ _
+    obtain ⟨hx0, hr1, hH0, hHt⟩ := hfacts t ht (by omega)
+    rw [hH t ht] at hinv
+    have htM : (t : K) ≤ M := by rw [hMdef]; exact_mod_cast (by omega : t ≤ maxInt64)
+    have hle' : t + max d 0 ≤ maxInt64 := by omega
+    rcases aux_linearPace_wait (exactOps sin cos pi) p t n d hf hp hw with ⟨hbeh, hd⟩ | ⟨hnb, hd⟩
+    · -- catch-up or first hit: wait 0
+      rw [hd]
+      simp only [max_self, add_zero]
+      rw [hH t ht]
+      rcases hbeh with h0 | hlt
+      · rw [h0]; simp only [Nat.cast_zero]; linarith
+      · have hcast : ((toU64K (linearHits (exactOps sin cos pi) p t) : Int) : K)
+            ≤ linearHits (exactOps sin cos pi) p t :=
+          aux_toU64K_le _ (by rw [hH t ht]; exact hH0)
+        have hlt' : (n : Int) + 1 ≤ toU64K (linearHits (exactOps sin cos pi) p t) := hlt
+        have : ((n : Int) : K) + 1 ≤ ((toU64K (linearHits (exactOps sin cos pi) p t) : Int) : K) := by
+          exact_mod_cast hlt'
+        rw [hH t ht] at hcast this
+        push_cast at this
+        linarith
+    · -- the first-order wait
+      have hnb' : ¬ (n : Int) < toU64K (linearHits (exactOps sin cos pi) p t) := fun h => hnb (Or.inr h)
+      rw [hH t ht] at hnb'
+      set Hq := a * ((t : K) / 1000000000) ^ 2 / 2 + b * ((t : K) / 1000000000) with hHq
+      set r := a * ((t : K) / 1000000000) + b with hr
+      have hHlt63 : Hq < ((two63 : Nat) : K) := by linarith
+      rw [aux_toU64K_floor Hq hH0 hHlt63] at hnb'
+      have hfl : Hq < (n : K) + 1 := by
+        have h1 := Int.lt_floor_add_one Hq
+        have h2 : ((⌊Hq⌋ : Int) : K) ≤ ((n : Int) : K) := by exact_mod_cast (not_lt.1 hnb')
+        push_cast at h2
+        linarith
+      -- hits+1 does not wrap
+      have hnle : (n : Int) ≤ maxInt64 + 1 := by
+        have : ((n : Int) : K) ≤ ((maxInt64 + 1 : Int) : K) := by
+          push_cast; rw [← hMdef]; linarith
+        exact_mod_cast this
+      have hwrap : wrapU64 ((n : Int) + 1) = (n : Int) + 1 :=
+        wrapU64_id (by unfold inU64 two64; unfold maxInt64 at hnle; omega)
+      have hrpos : 0 < r := by
+        have : 0 ≤ a * ((t : K) / 1000000000) := mul_nonneg ha' hx0
+        linarith
+      have hrb : b ≤ r := by
+        have : 0 ≤ a * ((t : K) / 1000000000) := mul_nonneg ha' hx0
+        linarith
+      -- the exact wait W and its floor
+      have hdW : d = toI64K (1000000000 / r * ((n : K) + 1 - Hq)) := by
+        rw [hd, hwrap, hR t, hH t ht]
+        simp only [exactOps, id]
+        push_cast
+        rfl
+      set W := 1000000000 / r * ((n : K) + 1 - Hq) with hW
+      have hdelta0 : 0 < (n : K) + 1 - Hq := by linarith
+      have hdelta2 : (n : K) + 1 - Hq ≤ 2 := by linarith
+      have hW0 : 0 < W := by rw [hW]; positivity
+      have hWM : W ≤ M := by
+        have h1 : W ≤ 1000000000 / r * 2 :=
+          mul_le_mul_of_nonneg_left hdelta2 (by positivity)
+        have h2 : 1000000000 / r ≤ 1000000000 / b :=
+          div_le_div_of_nonneg_left (by norm_num) hb hrb
+        have h3 : 1000000000 / b * 2 ≤ M := by
+          rw [div_mul_eq_mul_div, div_le_iff₀ hb]; linarith
+        linarith
+      have hdfl : d = ⌊W⌋ := by
+        rw [hdW]
+        apply aux_toI64K_floor W (le_of_lt hW0)
+        push_cast; rw [← hMdef]; linarith
+      have hd0 : 0 ≤ d := by rw [hdfl]; exact Int.floor_nonneg.2 (le_of_lt hW0)
+      have hmax : max d 0 = d := max_eq_left hd0
+      rw [hmax] at hle ⊢
+      rw [hH (t + d) (by omega)]
+      have hdK : W - 1 < (d : K) := by
+        have := Int.lt_floor_add_one W
+        rw [hdfl]; linarith
+      have hdK0 : (0 : K) ≤ (d : K) := by exact_mod_cast hd0
+      -- u = d/1e9 seconds; H(t+d) − H(t) = u·r + a·u²/2 ≥ u·r > delta − r/1e9 ≥ delta − 1
+      have hsplit : ((t + d : Int) : K) / 1000000000 = (t : K) / 1000000000 + (d : K) / 1000000000 := by
+        push_cast; ring
+      rw [hsplit]
+      have hu0 : (0 : K) ≤ (d : K) / 1000000000 := by positivity
+      have hur : (n : K) + 1 - Hq - 1 < (d : K) / 1000000000 * r := by
+        have h1 : (W - 1) * r < (d : K) * r := mul_lt_mul_of_pos_right hdK hrpos
+        have h2 : W * r = 1000000000 * ((n : K) + 1 - Hq) := by
+          rw [hW]; field_simp
+        have h3 : (d : K) / 1000000000 * r = (d : K) * r / 1000000000 := by ring
+        rw [h3, lt_div_iff₀ (by norm_num)]
+        nlinarith
+      have hquad : 0 ≤ a * ((d : K) / 1000000000) ^ 2 / 2 := by positivity
+      have hexp : a * ((t : K) / 1000000000 + (d : K) / 1000000000) ^ 2 / 2
+          + b * ((t : K) / 1000000000 + (d : K) / 1000000000)
+          = Hq + (d : K) / 1000000000 * r + a * ((d : K) / 1000000000) ^ 2 / 2 := by
+        rw [hHq, hr]; ring
+      rw [hexp]
+      linarith
+  · rw [hH 0 (le_refl _)]; simp
+
+/-- The known finding pinned in the exact model (ℚ, no rounding at all): 100 hits/s with slope
+−50/s².  At t = 1.9 s with 100 hits sent the attacker is within one hit of the schedule
+(H = 99.75), the pacer answers "wait 0.25 s", and at the release instant t = 2.15 s the schedule is
+at 99.4375 — hit 101 is released 1.56 hits ahead of the declared schedule (which never exceeds
+100).  The first-order wait undershoots when the rate falls. -/
+theorem linear_negative_slope_counterexample :
+    let o : FloatOps ℚ := exactOps (fun _ => 0) (fun _ => 0) 0
+    let p : LinearP ℚ := { freq := 100, per := 1000000000, slope := -50 }
+    ((100 : Nat) : ℚ) ≤ linearHits o p 1900000000 + 1 ∧
+    linearPace o p 1900000000 100 = .wait 250000000 ∧
+    linearHits o p (1900000000 + 250000000) + 1 < ((100 : Nat) : ℚ) + 1 := by
+  decide +kernel
+
+/-! ### Sine pacer (repaired code) over exact arithmetic, with the schedule as an abstract `H` -/
+
+theorem aux_toI64K_range (x : K) : inS64 (toI64K x) := by
+  unfold toI64K inS64
+  split
+  · assumption
+  · unfold minInt64 maxInt64; omega
+
+theorem aux_toI64K_intCast (z : Int) (hz : inS64 z) : toI64K ((z : Int) : K) = z := by
+  unfold inS64 at hz
+  unfold toI64K truncK
+  split <;> simp [hz.1, hz.2]
+
+/-- Along EVERY closed loop of the repaired sine pacer over exact arithmetic, every stall history:
+`n_k ≤ H(t_k) + 1 + 1e-3`, where `H` stands for the cos-formula the code evaluates (`hHdef`).
+All that is used of the float computation are three properties of `H` ALONE:
+`hmono` — `H` is non-decreasing; `hgrow` — it grows by at least `Mean−|Amp|` per nanosecond
+(so `[0, hi]` is a bracket); `hHmax` — at most `MaxInt64` hits are scheduled within representable
+time (at most one hit per ns on average; keeps counters and conversions in range) — plus
+`|Amp| < Mean`.  Every exit is covered: catch-up (`n+1 ≤ H(t)`), converged and bisected
+(`n+1 < H(t+w) + 1e-3`), bracket (`n+1 ≤ H(t+w)`); stop exits release nothing.  For the cos-formula
+itself these three properties are facts of calculus (`H' = Mean + Amp·sin ≥ Mean−|Amp| > 0`), a
+stated assumption of this property, not a theorem here. -/
+theorem sine_upper_exact (p : SineP K) (H : Int → K)
+    (hHdef : ∀ t : Int, sineHits (exactOps sin cos pi) p t = H t)
+    (hmono : ∀ a b : Int, a ≤ b → H a ≤ H b)
+    (hvalid : |hitsPerNs (exactOps sin cos pi) p.ampFreq p.ampPer|
+      < hitsPerNs (exactOps sin cos pi) p.meanFreq p.meanPer)
+    (hgrow : ∀ t d : Int, 0 ≤ t → 0 ≤ d →
+      (hitsPerNs (exactOps sin cos pi) p.meanFreq p.meanPer
+        - |hitsPerNs (exactOps sin cos pi) p.ampFreq p.ampPer|) * (d : K) ≤ H (t + d) - H t)
+    (hHmax : ∀ t : Int, t ≤ maxInt64 → H t ≤ ((maxInt64 : Int) : K))
+    (stalls : List Nat) :
+    ∀ x ∈ closedLoop (sinePace (exactOps sin cos pi) p) stalls 0 0,
+      (x.2 : K) ≤ H x.1 + (1 + 1 / 1000) := by
+  obtain ⟨o, ho⟩ : ∃ o, o = exactOps sin cos pi := ⟨_, rfl⟩
+  rw [← ho] at hHdef hvalid hgrow ⊢
+  obtain ⟨g, hgdef⟩ : ∃ g, g = hitsPerNs o p.meanFreq p.meanPer - |hitsPerNs o p.ampFreq p.ampPer| :=
+    ⟨_, rfl⟩
+  rw [← hgdef] at hgrow
+  have hg0 : 0 < g := by rw [hgdef]; linarith
+  have hH00 : H 0 = 0 := by
+    rw [← hHdef 0]; unfold sineHits; rw [if_pos (Or.inl (le_refl _)), ho]; rfl
+  have hHnn : ∀ t : Int, 0 ≤ t → 0 ≤ H t := fun t ht => by rw [← hH00]; exact hmono 0 t ht
+  have hlt : ∀ a b : K, o.lt a b = true ↔ a < b := by intro a b; rw [ho]; simp [exactOps]
+  have hM63 : ((maxInt64 : Int) : K) + 1 = ((two63 : Nat) : K) := by
+    unfold maxInt64 two63; norm_num
+  -- the error term over exact arithmetic
+  have hErr : ∀ (t : Int) (n : Nat) (w : Int),
+      sineErr o p t n w = ((wrapU64 ((n : Int) + 1) : Int) : K) - H (wrapS64 (t + w)) := by
+    intro t n w; unfold sineErr; rw [hHdef, ho]; rfl
+  have hconvI : ∀ x : K, inS64 (o.toInt64 x) := by intro x; rw [ho]; exact aux_toI64K_range x
+  intro x hx
+  have hres := closedLoop_upper_of_contract_field (sinePace o p) H (1 + 1 / 1000) maxInt64 (le_refl _)
+    (fun a b _ hab => hmono a b hab) ?_ stalls ?_ x hx
+  · exact hres.2 hres.1
+  · intro t n d ht hle hinv hw
+    have hm : (0 : Int) ≤ max d 0 := le_max_right _ _
+    have htle : t ≤ maxInt64 := by omega
+    have hHt0 := hHnn t ht
+    have hHtM := hHmax t htle
+    -- hits+1 does not wrap
+    have hnle : (n : Int) ≤ maxInt64 + 1 := by
+      have : ((n : Int) : K) < ((maxInt64 + 2 : Int) : K) := by
+        push_cast; linarith
+      have : (n : Int) < maxInt64 + 2 := by exact_mod_cast this
+      omega
+    have hwrap : wrapU64 ((n : Int) + 1) = (n : Int) + 1 :=
+      wrapU64_id (by unfold inU64 two64; unfold maxInt64 at hnle; omega)
+    -- a point w with `|err(w)| < 1e-3` in range is good enough
+    have hclose : ∀ w : Int, inS64 w → t + max w 0 ≤ maxInt64 →
+        o.lt (o.abs (sineErr o p t n w)) o.em3 = true →
+        (n : K) + 1 ≤ H (t + max w 0) + (1 + 1 / 1000) := by
+      intro w hwr hwle hc
+      rw [hlt, hErr, hwrap] at hc
+      have habs : |(((n : Int) + 1 : Int) : K) - H (wrapS64 (t + w))| < 1 / 1000 := by
+        rw [ho] at hc; exact hc
+      have h1 := (abs_lt.1 habs).2
+      unfold inS64 at hwr
+      have hm' : (0 : Int) ≤ max w 0 := le_max_right _ _
+      have hwm : w ≤ max w 0 := le_max_left _ _
+      have hid : wrapS64 (t + w) = t + w :=
+        wrapS64_id (by unfold inS64; unfold minInt64 maxInt64 at *; omega)
+      rw [hid] at h1
+      have h2 := hmono (t + w) (t + max w 0) (by omega)
+      push_cast at h1
+      linarith
+    have hnonpos : ∀ w : Int, 0 ≤ w → t + w ≤ maxInt64 →
+        o.lt o.zero (sineErr o p t n w) = false → (n : K) + 1 ≤ H (t + w) := by
+      intro w hw0 hwle hc
+      have hnot : ¬ (o.zero < sineErr o p t n w) := by
+        intro hcon; rw [← hlt, hc] at hcon; exact absurd hcon (by decide)
+      rw [hErr, hwrap, wrapS64_id (by unfold inS64; unfold minInt64 maxInt64 at *; omega)] at hnot
+      have hz : o.zero = (0 : K) := by rw [ho]; rfl
+      rw [hz] at hnot
+      push_cast at hnot
+      linarith [not_lt.1 hnot]
+    unfold sinePace at hw
+    have hX : sinePaceX o p t n = (.wait d, (sinePaceX o p t n).2) := by rw [← hw]
+    rcases aux_sinePaceX_cases o p t n with hc | hc | hc | hc | hc
+    · rw [hc.2] at hw; exact absurd hw PaceOut.noConfusion
+    · -- catch-up
+      rw [hc.2.2] at hw
+      injection hw with hw
+      rw [← hw]
+      simp only [max_self, add_zero]
+      have hb := hc.2.1
+      rw [hHdef] at hb
+      have hb' : (n : Int) + 1 ≤ toU64K (H t) := by rw [ho] at hb; exact hb
+      have hcast : (((n : Int) + 1 : Int) : K) ≤ ((toU64K (H t) : Int) : K) := by exact_mod_cast hb'
+      have := aux_toU64K_le (H t) hHt0
+      push_cast at hcast
+      linarith
+    · -- converged inside the fixed-point loop
+      have hex := sine_converged_exit o p t n d (by rw [hX, hc.2.2.2])
+      have hdr : inS64 d := by
+        have hd : d = (sineIter o p t n 5 (sineFirstGuess o p t n)).1 := by
+          rw [hc.2.2.2] at hw; injection hw with hw; exact hw.symm
+        rw [hd]
+        exact aux_sineIter_range o p t n hconvI 5 _ (hconvI _)
+      exact hclose d hdr hle hex
+    · rw [hc.2.2.2] at hw; exact absurd hw PaceOut.noConfusion
+    · -- the bisection
+      obtain ⟨hv, hnb, hnc, hXb⟩ := hc
+      have hd : d = (sineBisect o p t n 64 0 (o.toInt64 (sineHi o p t n))).1 := by
+        rw [hXb] at hw; injection hw with hw; exact hw.symm
+      have he : (sinePaceX o p t n).2 = (sineBisect o p t n 64 0 (o.toInt64 (sineHi o p t n))).2 := by
+        rw [hXb]
+      -- the guard holds (otherwise the answer is a stop)
+      have hguard : (o.le o.zero (sineHi o p t n) &&
+          o.lt (sineHi o p t n) (o.ofInt64 (wrapS64 (maxInt64 - t)))) = true := by
+        by_contra hcon
+        have hf : (o.le o.zero (sineHi o p t n) &&
+            o.lt (sineHi o p t n) (o.ofInt64 (wrapS64 (maxInt64 - t)))) = false := by simpa using hcon
+        unfold sinePaceX at hXb
+        rw [if_neg (by simp [hv]), if_neg hnb] at hXb
+        simp only [] at hXb
+        rw [if_neg (by simp [hnc]), if_pos hf] at hXb
+        simp at hXb
+      -- not behind: H(t) < n+1
+      have hHlt63 : H t < ((two63 : Nat) : K) := by linarith
+      have hfl : H t < (n : K) + 1 := by
+        rw [hHdef] at hnb
+        have hnb' : ¬ (n : Int) < toU64K (H t) := by rw [ho] at hnb; exact hnb
+        rw [aux_toU64K_floor (H t) hHt0 hHlt63] at hnb'
+        have h1 := Int.lt_floor_add_one (H t)
+        have h2 : ((⌊H t⌋ : Int) : K) ≤ ((n : Int) : K) := by exact_mod_cast (not_lt.1 hnb')
+        push_cast at h2
+        linarith
+      -- hi = ⌈(n+1−H(t))/g⌉ as an integer U with 0 ≤ U < MaxInt64 − t
+      obtain ⟨U, hU⟩ : ∃ U : Int, U = ⌈((n : K) + 1 - H t) / g⌉ := ⟨_, rfl⟩
+      have hhi : sineHi o p t n = ((U : Int) : K) := by
+        unfold sineHi
+        simp only []
+        rw [hHdef, hwrap, hU, hgdef, ho]
+        simp only [exactOps]
+        push_cast
+        rfl
+      rw [hhi] at hguard hd he
+      have hwrapM : wrapS64 (maxInt64 - t) = maxInt64 - t :=
+        wrapS64_id (by unfold inS64; unfold minInt64 maxInt64 at *; omega)
+      rw [hwrapM, Bool.and_eq_true] at hguard
+      have hU0 : 0 ≤ U := by
+        have h := hguard.1
+        rw [ho] at h
+        have : (0 : K) ≤ ((U : Int) : K) := by simpa [exactOps] using h
+        exact_mod_cast this
+      have hU1 : U < maxInt64 - t := by
+        have h := hguard.2
+        rw [ho] at h
+        have : ((U : Int) : K) < ((maxInt64 - t : Int) : K) := by simpa [exactOps] using h
+        exact_mod_cast this
+      have hUI : o.toInt64 ((U : Int) : K) = U := by
+        rw [ho]
+        exact aux_toI64K_intCast U (by unfold inS64; unfold minInt64 maxInt64 at *; omega)
+      rw [hUI] at hd he
+      have hrange := aux_sineBisect_range o p t n 64 0 U (le_refl _) hU0 (by omega)
+      rw [← hd] at hrange
+      have hd0 : 0 ≤ d := hrange.1
+      have hmax : max d 0 = d := max_eq_left hd0
+      have hex := sine_bisect_exit o p t n d _ hX
+      rcases aux_sineBisect_exits o p t n 64 0 U with hb | hb | hb
+      · -- bisected: within 1e-3
+        exact hclose d (by unfold inS64; unfold minInt64 maxInt64 at *; omega) hle
+          (hex.1 (by rw [he, hb]))
+      · -- bracket: its upper end has reached the new count, given that [0, U] is a bracket
+        have hinit : Bracket o p t n 0 (o.toInt64 (sineHi o p t n)) := by
+          rw [hhi, hUI]
+          constructor
+          · rw [hlt, hErr, hwrap, wrapS64_id (by unfold inS64; unfold minInt64 maxInt64 at *; omega)]
+            have hz : o.zero = (0 : K) := by rw [ho]; rfl
+            rw [hz]
+            push_cast
+            simp only [add_zero]
+            linarith
+          · have hgr := hgrow t U ht hU0
+            have hceil : ((n : K) + 1 - H t) / g ≤ ((U : Int) : K) := by rw [hU]; exact Int.le_ceil _
+            have hmul : (n : K) + 1 - H t ≤ g * ((U : Int) : K) := by
+              rw [div_le_iff₀ hg0] at hceil; linarith
+            by_contra hcon
+            have hpos : o.lt o.zero (sineErr o p t n U) = true := by simpa using hcon
+            rw [hlt, hErr, hwrap, wrapS64_id (by unfold inS64; unfold minInt64 maxInt64 at *; omega)] at hpos
+            have hz : o.zero = (0 : K) := by rw [ho]; rfl
+            rw [hz] at hpos
+            push_cast at hpos
+            linarith
+        obtain ⟨lo, hbr, _⟩ := hex.2 (by rw [he, hb]) hinit
+        rw [hmax]
+        have := hnonpos d hd0 (by omega) hbr.2
+        linarith
+      · -- fuel cannot run out
+        exact absurd hb (sine_bisect_fuel o p t n 63 0 U (le_refl _) hU0 (by omega)
+          (by unfold maxInt64 at *; omega))
+  · rw [hH00]; norm_num
+
+/-! Non-vacuity of the exact-arithmetic theorems (ℚ): the hypotheses of `linear_upper_nonneg_slope`
+hold for 100 hits/s rising by 10/s² over one hour, and those of `sine_upper_exact` for a straight schedule. -/
+example : (0 : ℚ) ≤ (10 : ℚ) ∧
+    linearRate (exactOps (fun _ => (0 : ℚ)) (fun _ => 0) 0)
+      { freq := 100, per := 1000000000, slope := 10 } 3600000000000 ≤ 1000000000 ∧
+    2 * 1000000000 ≤ linearRate (exactOps (fun _ => (0 : ℚ)) (fun _ => 0) 0)
+      { freq := 100, per := 1000000000, slope := 10 } 0 * ((maxInt64 : Int) : ℚ) := by
+  decide +kernel
+
+example : linearPace (exactOps (fun _ => (0 : ℚ)) (fun _ => 0) 0)
+    { freq := 100, per := 1000000000, slope := 10 } 1000000000 105 = .wait 9090909 := by
+  decide +kernel
+
+example : sinePaceX (exactOps (fun _ => (0 : ℚ)) (fun _ => 0) 0)
+    { period := 1000000000, meanFreq := 3, meanPer := 10, ampFreq := 0, ampPer := 10, startAt := 0 }
+    0 0 = (.wait 4, .bracket) := by
+  decide +kernel
+
+end exact
 
 end Vegeta.Props.C01
